@@ -222,7 +222,7 @@ static void gen_job(vf_case *c, job *J, int fam)
     for (int i = 1; i <= 7; i++) J->ienv[i] = vf_ienv_get(i);
     J->rowmajor = (fam == FAM_GSSV || fam == FAM_GSSVX || fam == FAM_ILU) ? o.rowmajor : 0;
     J->nrhs = o.nrhs; J->ldpadb = o.ldpad; J->ldpadx = rng_bool(r, 0.3) ? rng_int(r, 1, 4) : 0; J->trans = o.opt.Trans;
-    J->use_ws = (fam == FAM_GSSVX || fam == FAM_ILU || fam == FAM_TRF) && sizeof(int_t) == 4 && rng_bool(r, 0.25);
+    J->use_ws = (fam == FAM_GSSVX || fam == FAM_ILU || fam == FAM_TRF) && rng_bool(r, 0.25);
     J->opt = o.opt; J->opt.PrintStat = NO;
     if (fam == FAM_GSSVX) {
         if (rng_bool(r, 0.7)) { J->opt.ConditionNumber = YES; J->opt.PivotGrowth = YES; J->opt.IterRefine = (IterRefine_t)rng_int(r, 1, 3); if (J->nrhs == 0) J->nrhs = 1; }
